@@ -1,4 +1,4 @@
-(* C10, renaming: QuotaDistributor.evaluate (scan, recursive cap branch, _subtract_overaward with and without Tie keys),
+(* C10, renaming: QuotaDistributor.evaluate (scan with caps, _subtract_overaward with and without Tie keys),
    LargestRemainder.evaluate and QuotaSelector commute with every injective renaming of the candidates - EXACT equality
    of the result dictionaries (candidate keys renamed, Tie keys renamed member by member, same seats, same errors).
    The model compares candidates with [ceqb] / [cmem] only; no order on candidates is consulted. *)
@@ -31,18 +31,15 @@ Section QREN.
   Lemma zsumv_renl d : zsumv (renl f d) = zsumv d.
   Proof. unfold zsumv. rewrite (renl_vals f). reflexivity. Qed.
 
-  Lemma scan_ren ae q n prev caps votes : forall sel nov ovc,
-    scan ae (renl f votes) q n (renl f prev) (renl f caps) (renl f sel, nov, map f ovc)
-    = (let '(s, o, c) := scan ae votes q n prev caps (sel, nov, ovc) in (renl f s, o, map f c)).
+  Lemma scan_ren ae q prev caps votes : forall sel,
+    scan ae (renl f votes) q (renl f prev) (renl f caps) (renl f sel) = renl f (scan ae votes q prev caps sel).
   Proof.
-    induction votes as [|[c v] votes IH]; intros sel nov ovc; [reflexivity|].
+    induction votes as [|[c v] votes IH]; intros sel; [reflexivity|].
     change (renl f ((c, v) :: votes)) with ((f c, v) :: renl f votes).
-    cbn [scan]. rewrite !(dget_or_ren f f_inj).
+    cbn [scan]. unfold cap_whole. rewrite !(dget_or_ren f f_inj), (dget_ren f f_inj).
     destruct (fulfills ae v q); [|apply IH].
-    destruct (0 <? py_trunc (v / q) - dget_or prev c 0); [|apply IH].
-    destruct (dget_or caps c n <? py_trunc (v / q) - dget_or prev c 0 + dget_or prev c 0).
-    - rewrite (dset_ren f f_inj). change [f c] with (map f [c]). rewrite <- map_app. apply IH.
-    - rewrite (dset_ren f f_inj). apply IH.
+    destruct (0 <? _); [|apply IH].
+    rewrite (dset_ren f f_inj). apply IH.
   Qed.
 
   Lemma add_dict_ren d1 d2 : add_dict (renl f d1) (renl f d2) = renl f (add_dict d1 d2).
@@ -151,45 +148,28 @@ Section QREN.
     Variable ae : bool.
     Variable pol : policy.
 
-    Lemma qd_eval_ren fuel : forall votes n prev caps,
-      qd_eval quota ae pol fuel (renl f votes) n (renl f prev) (renl f caps) = ren_qd (qd_eval quota ae pol fuel votes n prev caps).
+    Theorem qd_evaluate_ren votes n prev caps :
+      qd_evaluate quota ae pol (renl f votes) n (renl f prev) (renl f caps) = ren_qd (qd_evaluate quota ae pol votes n prev caps).
     Proof.
-      induction fuel as [|fu IH]; intros votes n prev caps; [reflexivity|].
-      cbn [qd_eval]. rewrite qsumv_ren. cbv zeta. set (q := quota (qsumv votes) n).
+      unfold qd_evaluate. rewrite qsumv_ren. cbv zeta. set (q := quota (qsumv votes) n).
       assert (Ex : existsb (fun cv : C * Q => fulfills ae (snd cv) q) (renl f votes) = existsb (fun cv : C * Q => fulfills ae (snd cv) q) votes)
         by (unfold renl; apply existsb_map_eqv; intros x; reflexivity).
       rewrite Ex. destruct (Qeq_bool q 0 && existsb _ votes); [reflexivity|].
-      change (@nil (C * Z), 0, @nil C) with (renl f (@nil (C * Z)), 0, map f (@nil C)) at 1.
-      rewrite scan_ren. destruct (scan ae votes q n prev caps ([], 0, [])) as [[sel nov] ovc].
-      rewrite (renl_filter_keys f (fun c => negb (cmem c ovc)) (fun c => negb (cmem c (map f ovc)))) by (intros c; rewrite (cmem_ren f f_inj); reflexivity).
-      assert (Eg : map (fun cv : C * Q => (fst cv, dget_or (renl f sel) (fst cv) 0 + dget_or (renl f prev) (fst cv) 0)) (renl f votes)
-                   = renl f (map (fun cv : C * Q => (fst cv, dget_or sel (fst cv) 0 + dget_or prev (fst cv) 0)) votes)).
-      { unfold renl at 3 4. rewrite !map_map. apply map_ext. intros [c v]. cbn [fst snd]. rewrite !(dget_or_ren f f_inj). reflexivity. }
-      rewrite Eg, IH.
-      set (X := qd_eval quota ae pol fu _ nov _ caps).
-      replace (if nov =? 0 then Some (QD_ok []) else Some (ren_qd X)) with (Some (ren_qd (if nov =? 0 then QD_ok [] else X)))
-        by (destruct (nov =? 0); reflexivity).
-      replace (if nov =? 0 then Some (QD_ok []) else Some X) with (Some (if nov =? 0 then QD_ok [] else X))
-        by (destruct (nov =? 0); reflexivity).
-      generalize (if nov =? 0 then QD_ok [] else X). intros r. destruct r as [extra| | | | |]; try reflexivity.
-      cbn [ren_qd]. rewrite has_kt_ren. destruct (existsb _ extra); [reflexivity|].
-      rewrite plain_part_ren, add_dict_ren, !zsumv_renl.
-      set (sel2 := add_dict sel _).
-      destruct (n <? zsumv sel2 + zsumv prev).
+      assert (Es : scan ae (renl f votes) q (renl f prev) (renl f caps) [] = renl f (scan ae votes q prev caps []))
+        by exact (scan_ren ae q prev caps votes []).
+      rewrite Es, !zsumv_renl.
+      set (sel := scan ae votes q prev caps []).
+      destruct (n <? zsumv sel + zsumv prev).
       - destruct pol; [cbn [ren_qd]; rewrite kmap_ren; reflexivity|reflexivity|apply subtract_ren].
       - cbn [ren_qd]. rewrite kmap_ren. reflexivity.
     Qed.
-
-    Theorem qd_evaluate_ren votes n prev caps :
-      qd_evaluate quota ae pol (renl f votes) n (renl f prev) (renl f caps) = ren_qd (qd_evaluate quota ae pol votes n prev caps).
-    Proof. unfold qd_evaluate. rewrite (renl_length f). apply qd_eval_ren. Qed.
 
     Theorem lr_evaluate_ren votes n prev caps :
       lr_evaluate quota ae pol (renl f votes) n (renl f prev) (renl f caps) = ren_lr (lr_evaluate quota ae pol votes n prev caps).
     Proof.
       unfold lr_evaluate.
-      pose proof (qd_evaluate_ren votes n prev []) as E. change (renl f (@nil (C * Z))) with (@nil (C * Z)) in E. rewrite E. clear E.
-      destruct (qd_evaluate quota ae pol votes n prev []) as [qe| | | | |]; try reflexivity.
+      rewrite (qd_evaluate_ren votes n prev caps).
+      destruct (qd_evaluate quota ae pol votes n prev caps) as [qe| | | | |]; try reflexivity.
       cbn [ren_qd]. rewrite has_kt_ren. destruct (existsb _ qe); [reflexivity|]. cbv zeta.
       rewrite qsumv_ren, plain_part_ren, add_dict_ren, zsumv_renl.
       set (q := quota (qsumv votes) n). set (gained := add_dict _ prev).
